@@ -786,9 +786,12 @@ pub fn adversaries(thorough: bool) -> Vec<Adversary> {
 		("63,63,251:65535", vec![(63, 0), (63, 0), (251, 65535)]),
 		("251:65535", vec![(251, 65535)]),
 		("251:4,0", vec![(251, 3), (0, 0)]),
+		("0,251:65535", vec![(0, 0), (251, 65535)]),
+		("0,251:65534", vec![(0, 0), (251, 65534)]),
+		("0,0,251:65534", vec![(0, 0), (0, 0), (251, 65534)]),
 	];
 	for (n, f) in frames {
-		for cl in [5usize, 65535] {
+		for cl in [1usize, 5, 65535] {
 			let f = f.clone();
 			adv(&mut v, format!("stack-map-offset-sum/frames={n},code_length={cl}"), c, move || stackmap(&f, cl, b"StackMapTable"));
 		}
